@@ -437,13 +437,81 @@ def read_cat(tree):
     return cat
 
 
+_INSTR_FILE = ("src", "qutip_qip", "compiler", "instruction.py")
+_INSTR_HEAD = ["self.gate = deepcopy(gate)", "self.used_qubits = set()",
+               "if self.targets is not None:\n    self.targets.sort()\n    self.used_qubits |= set(self.targets)",
+               "if self.controls is not None:\n    self.controls.sort()\n    self.used_qubits |= set(self.controls)",
+               "self.tlist = tlist"]
+_INSTR_SHIFT = "if self.tlist[0] != 0:\n    self.tlist = np.asarray(self.tlist) - self.tlist[0]"
+
+
+def _dur_lin(node):
+    """arithmetic over self.tlist[-1] / self.tlist[0] -> (coefficient of tlist[-1], coefficient of tlist[0])"""
+    if isinstance(node, ast.Subscript) and U(node.value) == "self.tlist":
+        if U(node.slice) == "-1":
+            return (F(1), F(0))
+        if U(node.slice) == "0":
+            return (F(0), F(1))
+    if isinstance(node, ast.UnaryOp) and isinstance(node.op, ast.USub):
+        return tuple(-x for x in _dur_lin(node.operand))
+    if isinstance(node, ast.BinOp) and isinstance(node.op, (ast.Add, ast.Sub)):
+        l, r = _dur_lin(node.left), _dur_lin(node.right)
+        sg = 1 if isinstance(node.op, ast.Add) else -1
+        return tuple(x + sg * y for x, y in zip(l, r))
+    if isinstance(node, ast.BinOp) and isinstance(node.op, ast.Mult):
+        for a_, b_ in ((node.left, node.right), (node.right, node.left)):
+            if _is_num(a_):
+                return tuple(_num(a_) * x for x in _dur_lin(b_))
+    _fail("Instruction.duration: expression over self.tlist[-1] / self.tlist[0] not recognised: " + U(node))
+
+
+def read_instr():
+    path = os.path.join(paths.REPO, *_INSTR_FILE)
+    try:
+        tree = ast.parse(open(path).read())
+    except Exception as e:
+        raise TranslatorError(f"cannot parse {path}: {e}")
+    cls = [n for n in tree.body if isinstance(n, ast.ClassDef) and n.name == "Instruction"]
+    init = [n for c in cls for n in c.body if isinstance(n, ast.FunctionDef) and n.name == "__init__"]
+    if len(init) != 1:
+        _fail("Instruction.__init__ not found")
+    if [a.arg for a in init[0].args.args] != ["self", "gate", "tlist", "pulse_info", "duration"]:
+        _fail("Instruction.__init__: parameters changed")
+    body = list(init[0].body)
+    if len(body) != len(_INSTR_HEAD) + 2 or [U(x) for x in body[:len(_INSTR_HEAD)]] != _INSTR_HEAD:
+        _fail("Instruction.__init__: statements before the duration are not the expected ones")
+    _expect(body[-1], "self.pulse_info = pulse_info", "Instruction.__init__")
+    top = body[-2]
+    ok = isinstance(top, ast.If) and U(top.test) == "self.tlist is not None" and len(top.body) == 1 and isinstance(top.body[0], ast.If) \
+        and [U(x) for x in top.orelse] == ["self.duration = duration"]
+    if not ok:
+        _fail("Instruction.__init__: `if self.tlist is not None: ... else: self.duration = duration` expected")
+    sc = top.body[0]
+    _expect(sc.test, "np.isscalar(self.tlist)", "Instruction.__init__")
+    if [U(x) for x in sc.body] != ["self.duration = self.tlist"] or len(sc.orelse) != 1 or not isinstance(sc.orelse[0], ast.If):
+        _fail("Instruction.__init__: scalar branch / elif not recognised")
+    chk = sc.orelse[0]
+    l, op, r = _cmp(chk.test, "Instruction.__init__, first-entry test")
+    _expect(l, ("abs(self.tlist[0])", "np.abs(self.tlist[0])"), "Instruction.__init__, first-entry test")
+    if len(chk.body) != 1 or not U(chk.body[0]).startswith("raise ValueError("):
+        _fail("Instruction.__init__: the first-entry test must raise ValueError")
+    rest = list(chk.orelse)
+    shift = False
+    if rest and U(rest[0]) == _INSTR_SHIFT:
+        shift, rest = True, rest[1:]
+    if len(rest) != 1 or not (isinstance(rest[0], ast.Assign) and U(rest[0].targets[0]) == "self.duration"):
+        _fail("Instruction.__init__: `self.duration = ...` expected for a sampled tlist: " + " | ".join(U(x)[:60] for x in rest))
+    dl, df = _dur_lin(rest[0].value)
+    return {"t0Cmp": op, "t0Tol": _num(r), "shift": shift, "durLast": dl, "durFirst": df}
+
+
 def read_source():
     path = os.path.join(paths.REPO, *SRC_FILE)
     try:
         tree = ast.parse(open(path).read())
     except Exception as e:
         raise TranslatorError(f"cannot parse {path}: {e}")
-    return {"proc": read_proc(tree), "idle": read_idle(tree), "cat": read_cat(tree)}
+    return {"proc": read_proc(tree), "idle": read_idle(tree), "cat": read_cat(tree), "instr": read_instr()}
 
 
 #: the description the theorems are about (used by the oracle-side bookkeeping when the source cannot be read)
@@ -459,7 +527,8 @@ def standard_desc():
                      "disc": [("pts", [(one, z, z, z)])]},
             "cat": {"firstByTol": False, "firstCmp": "lt", "firstTol": F(1, 10**6), "gapRef": "maxEnd", "gapCmp": "gt",
                     "gapTol": F(1, 10**12), "emptyOk": True, "padCmp": "gt", "padTol": F(1, 10**6), "padTolStep": "min",
-                    "padStep": "min", "dropZero": True}}
+                    "padStep": "min", "dropZero": True},
+            "instr": {"t0Cmp": "gt", "t0Tol": F(1, 10**8), "shift": False, "durLast": F(1), "durFirst": F(0)}}
 
 
 # ----------------------------------------------------------------------------------------------
@@ -548,7 +617,7 @@ def render_gen(d):
     pl = lambda ps: "[" + ", ".join(_lpiece(p) for p in ps) + "]"
     return ("import QipVerif.Model.ConcatSrc\n"
             "/-! REGENERATED by py/props/c12.py from src/qutip_qip/compiler/gatecompiler.py\n"
-            "(`_process_gate_pulse`, `_process_idling_tlist`, `_concatenate_pulses`, `compile`). Do not edit. -/\n"
+            "(`_process_gate_pulse`, `_process_idling_tlist`, `_concatenate_pulses`, `compile`) and compiler/instruction.py\n(`Instruction.__init__`). Do not edit. -/\n"
             "namespace QipVerif.Gen\nopen QipVerif.Concat\n\n"
             "/-- what the working tree says -/\n"
             "def concatSrc : Src :=\n"
@@ -565,7 +634,9 @@ def render_gen(d):
             f"        gapRef := .{c['gapRef']}, gapCmp := .{c['gapCmp']}, gapTol := {_lr(c['gapTol'])},\n"
             f"        emptyOk := {_lbool(c['emptyOk'])},\n"
             f"        padCmp := .{c['padCmp']}, padTol := {_lr(c['padTol'])}, padTolStep := .{c['padTolStep']}, padStep := .{c['padStep']},\n"
-            f"        dropZero := {_lbool(c['dropZero'])} }} }}\n\n"
+            f"        dropZero := {_lbool(c['dropZero'])} }},\n"
+            f"    instr := {{ t0Cmp := .{d['instr']['t0Cmp']}, t0Tol := {_lr(d['instr']['t0Tol'])}, shift := {_lbool(d['instr']['shift'])}, "
+            f"durLast := {_lr(d['instr']['durLast'])}, durFirst := {_lr(d['instr']['durFirst'])} }} }}\n\n"
             "end QipVerif.Gen\n")
 
 
@@ -574,7 +645,9 @@ def describe(d):
     first = f"abs(last) {c['firstCmp']} step*{float(c['firstTol'])}" if c["firstByTol"] else "emptiness"
     return (f"first pulse by {first}; idle gap {c['gapCmp']} {float(c['gapTol'])}*{c['gapRef']}; emptyOk={c['emptyOk']}; "
             f"padding {c['padCmp']} {c['padTolStep']}_step*{float(c['padTol'])}, idle step {c['padStep']}; dropZero={c['dropZero']}; "
-            f"idle test {d['idle']['condCmp']}; {len(d['proc']['branches'])} array branches")
+            f"idle test {d['idle']['condCmp']}; {len(d['proc']['branches'])} array branches; Instruction: abs(tlist[0]) "
+            f"{d['instr']['t0Cmp']} {float(d['instr']['t0Tol'])} refused, shift={d['instr']['shift']}, duration = "
+            f"{d['instr']['durLast']}*tlist[-1] + {d['instr']['durFirst']}*tlist[0]")
 
 
 # ----------------------------------------------------------------------------------------------
@@ -597,6 +670,8 @@ def classify_exc(e):
     if isinstance(e, ValueError):
         if "shape of the compiled pulse" in msg:
             return "shape"
+        if "must start from 0" in msg:
+            return "t0"
         if "zero-size array" in msg:
             return "empty"
         if "Maximum allowed size exceeded" in msg:
@@ -637,15 +712,37 @@ def make_synth(nq, gate_specs):
         def emit(self, gate, args):
             g = self.queue.pop(0)
             info = [(lab, to_np(cf)) for lab, cf in g["pulses"]]
-            return [Instruction(gate, to_np(g["tl"]), info)]
+            ins = Instruction(gate, to_np(g["tl"]), info)
+            EMITTED.append(ins.tlist)       # the time sequence as the instruction stores it
+            return [ins]
 
     return Synth()
+
+
+#: time sequences of the instructions the synthetic compiler emitted in the last run, as stored by Instruction.__init__
+EMITTED = []
+
+
+def effective_case(case):
+    """the case with every time sequence replaced by the one the emitted Instruction stores (Instruction may normalise it)"""
+    out, k = [], 0
+    for g in case["gates"]:
+        if g["name"] in ("IDLE", "GLOBALPHASE"):
+            out.append(g)
+            continue
+        if k >= len(EMITTED):
+            raise ValueError("an instruction was not constructed")
+        tl = EMITTED[k]
+        k += 1
+        out.append(dict(g, tl=["s", fs(F(float(tl)))] if np.isscalar(tl) else ["a", [fs(F(float(x))) for x in tl]]))
+    return dict(case, gates=out)
 
 
 def run_compile_impl(case):
     """-> (status, payload, starts, perm).  Records what the real Scheduler returned."""
     gc_mod, GateCompiler, Instruction, Gate = _impl()
     specs = [g for g in case["gates"] if g["name"] not in ("IDLE", "GLOBALPHASE")]
+    del EMITTED[:]
     comp = make_synth(case["nq"], specs)
     gates = []
     for g in case["gates"]:
@@ -694,7 +791,21 @@ def dy(rng, e, mmax=16):
     return F(rng.randint(1, mmax)) * F(2) ** e
 
 
-def gen_wave(rng, kind, e, conv=True):
+T0_DYADIC = [F(sg, 2**k) for k in (27, 28, 29, 30) for sg in (1, -1)]      # |t0| <= 2^-27 < 1e-8: accepted by Instruction
+
+
+def gen_wave(rng, kind, e, conv=True, t0p=0.12):
+    """a waveform of the given kind whose step is about 2^e; with probability t0p a sampled time sequence starts at a tiny
+    non-zero value inside the window Instruction accepts (|tlist[0]| <= 1e-8) instead of exactly 0"""
+    tl, cf = gen_wave0(rng, kind, e, conv)
+    if tl[0] == "a" and rng.random() < t0p:
+        t0 = rng.choice(T0_DYADIC)
+        if t0 < tl[1][1]:
+            tl = ["a", [t0] + tl[1][1:]]
+    return tl, cf
+
+
+def gen_wave0(rng, kind, e, conv=True):
     """a waveform of the given kind whose step is about 2^e"""
     if kind == "scalar":
         return ["s", dy(rng, e, 64)], ["s", F(rng.randint(-16, 16), 8)]
@@ -842,7 +953,11 @@ def compare_channels(model, impl, exact=True, scale=1.0):
         if len(mt) != len(it) or len(mc) != len(ic):
             return f"channel {lab}: lengths model ({len(mt)},{len(mc)}) impl ({len(it)},{len(ic)})"
         for k, (a, b) in enumerate(zip(it, mt)):
-            ok = close(a, b) if exact else close_num(a, b, scale)
+            # idle / padding points (coefficient 0) of continuous pulses come from step/5 and np.linspace: inexact in floats even
+            # when the rational happens to be dyadic (e.g. 5*step/9 for a step divisible by 9) -> 2^-46 relative for them
+            kc = k if len(mc) == len(mt) else k - 1
+            zero_here = 0 <= kc < len(mc) and mc[kc] == 0
+            ok = close(a, b, exact=not zero_here) if exact else close_num(a, b, scale)
             if not ok:
                 return f"channel {lab}: tlist[{k}] model {float(b)!r} impl {a!r}"
         for k, (a, b) in enumerate(zip(ic, mc)):
@@ -861,6 +976,9 @@ CHECK = None
 # are not resolved -- an idle gap of at most RES*T is merged with the following instruction, a start time that lies at
 # most RES*T before the previous end (rounding of the scheduler) is taken as that end; pulses with a step of at most
 # RES*T are outside.  Everything else is judged.
+T0_WINDOW = F(1, 10**8)     # documented contract of Instruction: "Pulse time sequence must start from 0", |tlist[0]| <= 1e-8
+
+
 def fadd(a, b):
     """the float addition the code performs (`gate_tlist + start_time`), exact on the dyadic stream"""
     return F(float(a) + float(b))
@@ -877,6 +995,13 @@ def window(s, tl, cf):
         t = [F(x) for x in tl[1]]
         c = [F(x) for x in cf[1]]
         kind = "discrete" if len(c) == len(t) - 1 else ("continuous" if len(c) == len(t) else "bad")
+    # Instruction accepts |tlist[0]| <= 1e-8 as "starts from 0": the sequence is measured from the start of the instruction,
+    # an accepted first entry counts as 0
+    if kind != "bad" and t and t[0] != 0:
+        if abs(t[0]) > T0_WINDOW:
+            kind = "bad"
+        else:
+            t = [F(0)] + t[1:]
     return {"s": s, "t": t, "P": [s] + [fadd(s, x) for x in t[1:]], "c": c, "kind": kind}
 
 
@@ -928,6 +1053,9 @@ def hypothesis(chans, full=False):
         last = F(0)
         for j, w in enumerate(ws):
             t = w["t"]
+            if w["kind"] != "bad" and len(t) >= 2 and t[0] == 0 and t[1] <= 0 and full and \
+                    all(t[i + 1] > t[i] for i in range(1, len(t) - 1)):
+                continue        # witness of the recorded finding: accepted first entry below a non-positive second entry
             if w["kind"] == "bad" or len(t) < 2 or t[0] != 0 or any(t[i + 1] <= t[i] for i in range(len(t) - 1)):
                 return False, "malformed waveform"
             if not full and any(w["P"][i + 1] <= w["P"][i] for i in range(len(t) - 1)):
@@ -1050,6 +1178,10 @@ def gen_float_case(rng):
         else:
             n = rng.randint(2, 5)
             tl = ["a", [F(float(x)) for x in np.linspace(0.0, d, n + 1)]]
+            if rng.random() < 0.25:            # a first entry that is rounding noise / a tiny offset, accepted by Instruction
+                t0 = F(rng.choice(["1e-16", "1e-13", "1e-11", "1e-10", "1e-9", "5e-9", "1e-8"])) * rng.choice([1, -1])
+                if t0 < tl[1][1]:
+                    tl[1][0] = F(float(t0))
             m = n if kind == "discrete" else n + 1
             mk = lambda: ["a", [F(0) if (kind == "continuous" and i == 0) else F(rng.randint(-16, 16), 8) for i in range(m)]]
         g["tl"] = [tl[0], fs(tl[1]) if tl[0] == "s" else [fs(x) for x in tl[1]]]
@@ -1194,7 +1326,9 @@ def build_store(case):
 
         def emit(self, gate, args):
             g = queue.pop(0)
-            return [Instruction(gate, to_np(g["tl"]), [(store_label(case, fam, q), to_np(cf)) for fam, q, cf in g["pulses"]])]
+            ins = Instruction(gate, to_np(g["tl"]), [(store_label(case, fam, q), to_np(cf)) for fam, q, cf in g["pulses"]])
+            EMITTED.append(ins.tlist)
+            return [ins]
 
     qc = QubitCircuit(n)
     fam1 = "RY" if dev == "scqubits" else "RZ"
@@ -1207,6 +1341,7 @@ def run_store(case):
     """-> (status, maps, pulses, starts, perm): maps = [(key, tlist, coeff)] in the order of the returned coeff map and the
     keys of the returned tlist map; pulses = [(key, tlist, coeff)] as stored in processor.pulses"""
     gc_mod = _impl()[0]
+    del EMITTED[:]
     proc, comp, qc = build_store(case)
     real = gc_mod.Scheduler
     rec = {"starts": None}
@@ -1272,6 +1407,31 @@ def _same(a, b):
     return a.shape == b.shape and bool(np.array_equal(a, b))
 
 
+def first_entry_cases(float_mode, shift):
+    """sampled pulses whose time sequence starts at a tiny non-zero value inside the window Instruction accepts, directly
+    followed by another instruction on the same channel (total time of order 1): exact dyadic offsets, or decimal magnitudes
+    1e-16..1e-8; with `shift` (fixes/C12-6.patch) also sequences whose second entry is not positive"""
+    offs = ([F(sg, 2**k) for k in (27, 28, 29, 30) for sg in (1, -1)] if not float_mode else
+            [F(sg) * F(x) for x in ("1e-16", "1e-14", "1e-12", "1e-10", "1e-9", "5e-9", "1e-8") for sg in (1, -1)])
+    for t0 in offs:
+        for kind in ("discrete", "continuous"):
+            for mode in (None, "ASAP", "ALAP"):
+                tls = [[t0, F(1, 4), F(1, 2), F(3, 4), F(1)], [t0, F(1, 2), F(1)], [F(0), F(1, 8), F(1, 4)]]
+                gates = []
+                for tl in tls:
+                    n = len(tl) - 1 if kind == "discrete" else len(tl)
+                    cf = [F(0) if (kind == "continuous" and i == 0) else F(i + 1, 2) for i in range(n)]
+                    gates.append({"name": "RX", "targets": [0], "controls": None, "tl": ["a", [fs(x) for x in tl]],
+                                  "pulses": [["x0", ["a", [fs(x) for x in cf]]]]})
+                yield {"nq": 1, "mode": mode, "gates": gates}
+    if shift:
+        for tl in ([F("-1e-9"), F(0), F(1)], [F(-1, 2**28), F(-1, 2**29), F(1)], [F(-1, 2**27), F(0), F(1, 2), F(1)]):
+            for mode in (None, "ASAP"):
+                gates = [{"name": "RX", "targets": [0], "controls": None, "tl": ["a", [fs(x) for x in tl]],
+                          "pulses": [["x0", ["a", [fs(F(i + 1)) for i in range(len(tl) - 1)]]]]} for _ in range(2)]
+                yield {"nq": 1, "mode": mode, "gates": gates}
+
+
 def direct_input(chans):
     """[[(start, tl, cf)]] -> JSON-able input of a direct _concatenate_pulses call"""
     return {"direct": [[[fs(s), [tl[0], fs(tl[1]) if tl[0] == "s" else [fs(x) for x in tl[1]]],
@@ -1305,8 +1465,15 @@ class C12(PropertyCheck):
         "QipVerif.C12.closed_channel_every_schedule",
         "QipVerif.C12.discrete_channel_outside_small_gaps",
         "QipVerif.C12.no_small_gap_when_separated",
+        "QipVerif.C12.source_instruction_shape",
+        "QipVerif.C12.instruction_duration_is_last_time",
+        "QipVerif.C12.shifted_instruction_starts_at_zero",
+        "QipVerif.C12.first_grid_time_counts_as_zero",
+        "QipVerif.C12.first_entry_counterexample",
         "QipVerif.C12.compile_source_channels",
         "QipVerif.C12.compile_source_end_to_end",
+        "QipVerif.C12.compile_source_channels_scalar",
+        "QipVerif.C12.compile_source_end_to_end_scalar",
         "QipVerif.C12.stored_pulses_are_compiled_maps",
         "QipVerif.C12.tolerance_counterexample",
         "QipVerif.C12.maxstart_rounding_counterexample",
@@ -1356,6 +1523,12 @@ class C12(PropertyCheck):
         "length 1e4 makes the grid go backwards; relative to the largest END time the schedule is a rounded chain.  "
         "compile_source_channels / compile_source_end_to_end / schedule_unscheduled / schedule_scheduled: compile drops zero-duration instructions, keeps every "
         "(instruction, start) pair, sorts the starts and puts exactly the pulses labelled l on channel l.  "
+        "Instructions: source_instruction_shape / instruction_duration_is_last_time -- Instruction.__init__ (read with ast) refuses "
+        "abs(tlist[0]) > 1e-8 and stores duration = tlist[-1], also when tlist[0] is not 0; first_grid_time_counts_as_zero -- without the "
+        "shift _process_gate_pulse reads an accepted first entry only for the step size (it counts as 0); "
+        "shifted_instruction_starts_at_zero -- with fixes/C12-6.patch the stored sequence starts at exactly 0 (the head clause of WaveOK "
+        "then holds for every accepted instruction); first_entry_counterexample -- [-1e-9, 0, 1] is laid out as [0, 0, 1] without the "
+        "shift.  "
         "Processor state: stored_pulses_are_compiled_maps -- ModelProcessor.load_circuit (set_coeffs then set_tlist, Model/PulseStore.lean) "
         "leaves one pulse per label of the returned maps, in the order of coeff_map, each holding tlist_map[label] and coeff_map[label], "
         "for any labels (str, int, numpy integer) in any order of first appearance; so the statements about the returned maps are "
@@ -1397,6 +1570,9 @@ class C12(PropertyCheck):
         "instructions of one channel do not overlap by more than the scheduler's rounding (C11's no-overlap clause is decided "
         "separately; overlapping schedules are outside ChainR)",
         "continuous pulses: sample level (no statement about the interpolation between samples)",
+        "a sampled time sequence starts at 0 (WaveOK); Instruction accepts |tlist[0]| <= 1e-8: the oracle counts such an entry as the "
+        "start (the code's convention, first_grid_time_counts_as_zero); sequences whose second entry is then not positive are the "
+        "recorded finding fixed by fixes/C12-6.patch (with it every accepted sequence is shifted to start at 0)",
     ]
     rule = ("case = (gate list with one synthetic instruction per gate: scalar / discrete / continuous waveform, dyadic times "
             "m*2^e, e in [-30,17]; schedule mode None/ASAP/ALAP) compiled by GateCompiler.compile and by the regenerated model fed "
@@ -1465,9 +1641,11 @@ class C12(PropertyCheck):
             return
         (mst, mpayload), tight = self._model_compile(ctx, case, starts, perm)
         try:
-            chans = windows_of(ordered_instr(case, starts, perm))
+            chans = windows_of(ordered_instr(effective_case(case), starts, perm))
         except Exception:
             chans = {}
+        if any(g.get("tl", ["s"])[0] == "a" and g["tl"][1] and F(g["tl"][1][0]) != 0 for g in case["gates"]):
+            tags = list(tags) + ["first-entry-nonzero"]
         nontriv = any(len(ws) >= 2 or (ws and ws[0]["s"] > 0) for ws in chans.values())
         kinds = sorted({w["kind"] for ws in chans.values() for w in ws})
         tg = list(tags) + [f"mode={case['mode']}", f"result={mst}"] + [f"kind={k}" for k in kinds]
@@ -1770,6 +1948,14 @@ class C12(PropertyCheck):
                         self._compare_synth(ctx, res, {"nq": 1, "mode": mode, "gates": gates}, ["family=pairs"])
         res.notes.append("deterministic family: all 9 pairs of pulse kinds x 6 step-ratio pairs (2^-30..2^15) x gap/no gap x 3 modes on one channel")
         self._limits(ctx, res)
+        for case in first_entry_cases(False, self._desc()["instr"]["shift"]):
+            self._compare_synth(ctx, res, case, ["family=first-entry"])
+        for t0 in (F(1, 2**26), F(-1, 2**26), F(1, 2**20)):          # outside the window: Instruction refuses
+            g = {"name": "RX", "targets": [0], "controls": None, "tl": ["a", [fs(t0), "1/2", "1"]], "pulses": [["x0", ["a", ["1", "2"]]]]}
+            self._compare_synth(ctx, res, {"nq": 1, "mode": None, "gates": [g]}, ["family=first-entry", "refused"])
+        res.notes.append("deterministic family: time sequences starting at +-2^-27..2^-30 (inside the window |tlist[0]| <= 1e-8 of "
+                         "Instruction) on discrete and continuous pulses followed back-to-back by further instructions, three modes; "
+                         "+-2^-26 and 2^-20 (refused)")
         res.notes.append("deterministic family at the tolerance limits: idle gaps of 2^-31..2^-27 of the total time (same channel / "
                          "another channel is the long one), channel ends 2^-21..2^-18 of the smallest step before the final time")
         for i in range(500 * k):
@@ -1792,7 +1978,14 @@ class C12(PropertyCheck):
             case = w["case"]
             st, payload, starts, perm = run_compile_impl(case)
             try:
-                chans = windows_of(ordered_instr(case, starts, perm))
+                ecase = effective_case(case)
+            except ValueError:
+                raw = [F(g["tl"][1][0]) for g in case["gates"] if "tl" in g and g["tl"][0] == "a" and g["tl"][1]]
+                if any(abs(x) > T0_WINDOW for x in raw):
+                    return False, "not judged: a time sequence starts outside the window Instruction accepts"
+                return True, f"an instruction could not be constructed: compile raised {payload}"
+            try:
+                chans = windows_of(ordered_instr(ecase, starts, perm))
             except Exception as e:
                 return False, "not judged: could not reconstruct the schedule: " + repr(e)
             if not any(chans.values()):
@@ -1854,8 +2047,8 @@ class C12(PropertyCheck):
                     return True, (f"processor pulse {k}: time grid {None if ptl is None else np.asarray(ptl).tolist()[:6]}, compile "
                                   f"returned {None if tmap.get(k) is None else np.asarray(tmap[k]).tolist()[:6]} for that label")
             # and the stored pulses are the scheduled waveforms
-            mcase = store_windows_case(case)
             try:
+                mcase = effective_case(store_windows_case(case))
                 chans = windows_of(ordered_instr(mcase, starts, perm))
             except Exception as e:
                 return False, "not judged: could not reconstruct the schedule: " + repr(e)
@@ -1927,7 +2120,19 @@ class C12(PropertyCheck):
                 yield w, d
         ctx.log(f"property sweep: {judged} of {n_dyadic + n_float} synthetic schedules inside the judged class, {n_shipped} shipped")
 
+    def _first_entry_sweep(self, ctx):
+        for fm in (False, True):
+            for case in first_entry_cases(fm, self._desc()["instr"]["shift"]):
+                w = {"kind": "synthetic", "case": case}
+                try:
+                    f, d = self.oracle_replay(ctx, w)
+                except Exception as e:
+                    f, d = True, "oracle crashed: " + repr(e)
+                if f:
+                    yield w, d
+
     def oracle_always(self, ctx):
+        yield from self._first_entry_sweep(ctx)
         # judged on every schedule except the resolution class (gaps / steps <= 1e-12 of the total time), which the theorems
         # exclude explicitly (SmallGap exception set, ChainR); see notes/C12.md
         yield from self._sweep(ctx, 150, 250, 15, 60)
@@ -1935,6 +2140,7 @@ class C12(PropertyCheck):
     def oracle_search(self, ctx, budget_s):
         t0 = time.time()
         # inputs at the tolerance limits first (the correspondence families), then random
+        yield from self._first_entry_sweep(ctx)
         for w in limit_witnesses():
             f, d = self.oracle_replay(ctx, w)
             if f:
